@@ -116,12 +116,31 @@ def explore(fn, env, max_paths=800):
     count = [0]
     multi = {l for l, ds in fn.defs().items() if len([d for d in ds if not d[-1]]) >= 2}
 
+    def int_of(t):
+        t0 = strip(t)
+        if t0[0] == 'arg' and ('int:%s' % t0[2]) in env:
+            return env['int:%s' % t0[2]]
+        if t0[0] == 'cast':
+            return int_of(t0[2])
+        from facts import const_eval
+        return const_eval(t0)
+
     def decide(b, s):
         e = paths.edge_cond(fn, b, s)
         if e is None:
             return None
+        if e[0] == 'disc' and e[1][0] == 'arg' and ('int:%s' % e[1][2]) in env:
+            sw = paths.switch_at(fn, b)
+            listed = [int(v) for v, t in sw['targets']]
+            v = env['int:%s' % e[1][2]]
+            return (v in e[2]) or (e[3] and v not in listed)
         if e[0] == 'bool':
             c = strip(e[1])
+            if c[0] == 'binop' and c[1] in ('Lt', 'Le', 'Gt', 'Ge', 'Eq', 'Ne'):
+                x, y = int_of(c[2]), int_of(c[3])
+                if x is not None and y is not None and (any(k.startswith('int:') for k in env)):
+                    tr = {'Lt': x < y, 'Le': x <= y, 'Gt': x > y, 'Ge': x >= y, 'Eq': x == y, 'Ne': x != y}[c[1]]
+                    return tr == e[2]
             if c[0] == 'binop' and c[1] in ('Lt', 'Le', 'Gt', 'Ge', 'Eq', 'Ne'):
                 a, bb = sign_of(c[2], env), sign_of(c[3], env)
                 if a is not None and bb is not None:
